@@ -6,6 +6,7 @@ R-C08.2  row-shape agreement: CREATE TABLE columns / INSERT tuple / SELECT list 
 R-C08.3  a call trace round-trips through CallTraceRow with absent return/yield kept distinct from NoneType
 R-C08.4  canonical text: every json.dumps in the codec sorts keys
 R-C08.5  hidden builtin table: every entry is reachable by its key and decodes to the type it names
+R-C08.8  a recorded class that is no longer found under its name never decodes to a different, similarly named class
 """
 from __future__ import annotations
 
@@ -54,6 +55,15 @@ def _first_diff(a: Any, b: Any, path: str = "") -> str:
     return f"{path or 'value'}: {str(a)[:50]} vs {str(b)[:50]}"
 
 
+def _canon(t: Any) -> str:
+    """text of an abstract type with the fields of every TypedDict in sorted order (field order is not part of the structure)"""
+    if isinstance(t, R) and t.kind == "td":
+        return f"TypedDict({t.fields['__name__'].v}, total={t.fields['__total__'].v}, {{" + ", ".join(sorted(f"{k.v}: {_canon(v)}" for k, v in t.fields["__annotations__"].fields["items"])) + "})"
+    if isinstance(t, R) and t.kind == "generic":
+        return f"{t.fields['origin'].v}[{', '.join(_canon(x) for x in t.fields['args'].v)}]"
+    return show(t)
+
+
 def rule_type_round_trip(ctx: Ctx, repo: Repo) -> None:
     w = f"{ENC}.type_to_dict/type_from_dict"
     ctx.functions.update({f"{ENC}.type_to_dict", f"{ENC}.type_from_dict", f"{ENC}.typed_dict_to_dict", f"{ENC}.typed_dict_from_dict",
@@ -72,6 +82,22 @@ def rule_type_round_trip(ctx: Ctx, repo: Repo) -> None:
         ok = k2 == "return" and same_type(dec, t)
         ctx.check(ok, "R-C08.1", w, "decoding the encoding of a type gives a structurally identical type",
                   construct=f"{show(t)} -> {show(dec) if k2 == 'return' else 'raises ' + str(dec)}")
+        if ok and isinstance(t, R) and t.kind == "td" and t.fields["__name__"] == K("DUMMY_NAME"):
+            # the decoded copy of a generated TypedDict is read by the same accessor as the original (merging and stub
+            # generation work on decoded types): required stays required, optional stays optional
+            fa = repo.fn("monkeytype.typing", "field_annotations")
+            halves = []
+            for x in (t, dec):
+                kf, rf = CodecScenario(repo, "monkeytype.typing", "field_annotations").result({fa.positional_params()[0]: x})
+                halves.append((kf, rf))
+            (k_a, r_a), (k_b, r_b) = halves
+            def _fields(v: Any) -> Any:
+                if isinstance(v, K) and isinstance(v.v, tuple) and len(v.v) == 2 and all(isinstance(h, R) and h.kind == "dict" for h in v.v):
+                    return tuple(sorted((repr(k_), _canon(x_)) for k_, x_ in h.fields["items"]) for h in v.v)
+                return None
+            ctx.check(k_a == "return" and k_b == "return" and _fields(r_a) is not None and _fields(r_a) == _fields(r_b), "R-C08.1", "monkeytype.typing.field_annotations",
+                      "the required and the optional fields read from a decoded TypedDict are those of the encoded one (a decoded dict lists its keys in the sorted order of the canonical JSON text)",
+                      construct=f"{show(t)}: {k_a} {_fields(r_a)} before, {k_b} {_fields(r_b)} after the round trip")
         if ok:
             # structurally equal types encode equally: the decoded copy is structurally equal to t, so it must encode as t did
             k3, enc3 = CodecScenario(repo, ENC, "type_to_json").result({repo.fn(ENC, "type_to_json").positional_params()[0]: dec})
@@ -203,8 +229,10 @@ def rule_trace_round_trip(ctx: Ctx, repo: Repo) -> None:
                     same_type(back.fields.get("return_type"), rt) and same_type(back.fields.get("yield_type"), yt)
                 if ok:
                     got = back.fields.get("arg_types")
-                    ok = isinstance(got, R) and got.kind == "dict" and [k_ for k_, _ in got.fields["items"]] == [k_ for k_, _ in args.fields["items"]] and \
-                        all(same_type(x, y) for (_, x), (_, y) in zip(got.fields["items"], args.fields["items"]))
+                    # a dict compared as a dict: the canonical text lists the argument names in sorted order
+                    want_a = dict(args.fields["items"])
+                    ok = isinstance(got, R) and got.kind == "dict" and len(got.fields["items"]) == len(want_a) and \
+                        all(k_ in want_a and same_type(x, want_a[k_]) for k_, x in got.fields["items"])
                 ctx.check(ok, "R-C08.3", w, "a call trace decodes back to the same function, argument types, return type and yield type",
                           construct=f"{lab} -> {k2} {str(back)[:160]}")
     ctx.floor("R-C08.3", "trace round trips", n, 40)
@@ -325,6 +353,46 @@ def rule_dumps(ctx: Ctx, repo: Repo) -> None:
     ctx.floor("R-C08.4", "json.dumps calls in encoding.py", n, 2)
 
 
+def rule_no_impostor(ctx: Ctx, repo: Repo, rule: str = "R-C08.8") -> None:
+    """A recorded class that cannot be found again under its recorded name (a class defined inside a function, a class that
+    has since been removed or renamed) either fails to decode with a MonkeyType error - the trace is then skipped and counted -
+    or decodes to the very class recorded: never to ANOTHER class that happens to be reachable under a similar name (the bare
+    name of a function-local class at module level, the same name in the parent package, a different letter case)."""
+    tj, fj = repo.fn(ENC, "type_to_json"), repo.fn(ENC, "type_from_json")
+    ctx.functions.update({tj.fq, fj.fq, "monkeytype.util.get_name_in_module"})
+    hier = None
+    n = 0
+    for recorded, lookalike in (
+        (CM.cls("pkg.mod", "make_model.<locals>.Model"), ("pkg.mod", "Model")),       # a local class / a module-level class of the same bare name
+        (CM.cls("pkg.mod", "Outer.helper.<locals>.Row"), ("pkg.mod", "Outer.Row")),   # local class of a method / attribute of the class
+        (CM.cls("pkg.mod", "Removed"), ("pkg", "Removed")),                             # removed from the module / same name in the parent package
+        (CM.cls("pkg.mod", "Outer.Gone"), ("pkg.mod", "Gone")),                         # nested class removed / a top-level class of that name
+        (CM.cls("pkg.mod", "Config"), ("pkg.mod", "config")),                           # removed / a different letter case
+    ):
+        for wrap in (lambda t: t, lambda t: CM.gen("List", t), lambda t: CM.gen("Union", t, CM.INT), lambda t: CM.anon_td({"a": t})):
+            t = wrap(recorded)
+            w = World()
+            other = CM.cls(lookalike[0], lookalike[1])
+            w.add(lookalike[0], lookalike[1], other)
+            w.add("pkg.mod", "make_model", CM.func("pkg.mod", "make_model"))
+            w.add("pkg.mod", "Outer.helper", CM.func("pkg.mod", "Outer.helper"))
+            k, enc = CodecScenario(repo, ENC, "type_to_json", w).result({tj.positional_params()[0]: t})
+            if k != "return":
+                continue  # not encodable: nothing is stored
+            k2, dec = CodecScenario(repo, ENC, "type_from_json", w).result({fj.positional_params()[0]: enc})
+            n += 1
+            lab = f"{show(t)} recorded, `{lookalike[0]}.{lookalike[1]}` exists"
+            if k2 == "return":
+                ctx.check(same_type(dec, t), rule, f"{ENC}.type_from_dict",
+                          "a recorded class that is not found under its recorded name is never replaced by a different class: decoding fails (the row is skipped) or gives the recorded class",
+                          construct=f"{lab}: decodes to {show(dec)}")
+            else:
+                ctx.check(str(dec) in ("NameLookupError", "InvalidTypeError"), rule, f"{ENC}.type_from_dict",
+                          "a class that is not found again makes decoding fail with a MonkeyType error (which the readers tolerate)",
+                          construct=f"{lab}: raises {dec}")
+    ctx.floor(rule, "recorded-class / look-alike scenarios decoded", n, 15)
+
+
 def run(ctx: Ctx, repo: Repo, tier: str) -> None:
     ctx.trust("json.loads(json.dumps(x)) == x for documents of dicts with str keys, lists, strings, booleans and null (tuples become lists)",
               "typing: alias[args] rebuilds the generic; Tuple[()] has empty __args__; bare aliases have no __args__ (CPython >= 3.11)",
@@ -337,4 +405,5 @@ def run(ctx: Ctx, repo: Repo, tier: str) -> None:
     ctx.attempt(rule_row_shape, ctx, repo)
     ctx.attempt(rule_hidden_builtins, ctx, repo)
     ctx.attempt(rule_dumps, ctx, repo)
+    ctx.attempt(rule_no_impostor, ctx, repo)
     ctx.settle()
